@@ -3,7 +3,7 @@
 From Coq Require Import List NArith Bool Arith Lia String.
 From Verif.Common Require Import Packet PolicyRef Ipt.
 From Verif.C08 Require Import Model Spec ProofsMark ProofsExact ProofsFilter Proofs ProofsChain.
-From Verif.C09 Require Import Model Spec ProofsMarks ProofsPolicy ProofsGroup ProofsEndpoint ProofsStaged.
+From Verif.C09 Require Import Model Spec ProofsMarks ProofsPolicy ProofsGroup ProofsEndpoint ProofsRaw ProofsStaged.
 Import ListNotations.
 Open Scope N_scope.
 
@@ -116,6 +116,24 @@ Proof.
   change (3 + f)%nat with (S (S (S f))).
   apply (forward_exact c e _ v Hm ec); try assumption.
   - unfold is_normal, is_forward. rewrite Ht. reflexivity.
+  - apply model_tiers_in_cs; assumption.
+  - apply model_failsafe_ok. assumption.
+  - split; assumption.
+Qed.
+
+Theorem raw_verdict_model : forall c e ec v name tiers profiles f p,
+  marks_ok c = true -> (ec_type ec = TUntracked \/ ec_type ec = TPreDNAT) ->
+  NoDup (map fst (render_endpoint ec c v name tiers profiles)) ->
+  (forall r, In r (all_rules tiers profiles) -> rule_ok c e r) ->
+  wf_packet p -> pk_ver p = v -> entry_mark_ok c p = true ->
+  ok_result ec c (expected ec (e_sets e) tiers profiles p) p
+    (run_chain (3 + f) (render_endpoint ec c v name tiers profiles) e name p) = true.
+Proof.
+  intros c e ec v name tiers profiles f p Hm Ht Hnd Hok Hw Hv Hd.
+  unfold run_chain. rewrite model_endpoint_lookup.
+  change (3 + f)%nat with (S (S (S f))).
+  apply (raw_exact c e _ v Hm ec); try assumption.
+  - unfold is_normal, is_forward. destruct Ht as [Ht|Ht]; rewrite Ht; reflexivity.
   - apply model_tiers_in_cs; assumption.
   - apply model_failsafe_ok. assumption.
   - split; assumption.
